@@ -7,6 +7,7 @@ their headers live in the world and survive a throw, as in C++.
 -/
 import SvModel.Prim
 import SvModel.Gen.Guards
+import SvModel.Gen.Calls
 
 namespace SvModel
 open Gen
@@ -333,7 +334,7 @@ def resizeWith (cfg : Cfg) (c newSize : Nat) (s : Src α) : M α Unit :=
      else appendRealloc cfg c true (List.replicate (newSize - v.size) s) >>= fun _ => pure ())
   else if guard_resizeWith_3 e then
     uninitGen cfg v.data v.size 0 (List.replicate (newSize - v.size) s) >>= fun _ => setSize c newSize
-  else eraseRange cfg c newSize v.size >>= fun _ => pure ()
+  else eraseToEnd cfg c newSize
 
 /-! ### assign -/
 /-- assign_with_copies (hpp:3512) -/
@@ -408,7 +409,7 @@ def ctorFill (cfg : Cfg) (c a : Nat) (checked : Bool) (srcs : List (Src α)) : M
 
 /-- copy construction from container `o` with allocator `a` (hpp:3258) -/
 def ctorCopy (cfg : Cfg) (c o a : Nat) : M α Unit :=
-  getV o >>= fun ov => ctorFill cfg c a false (srcsCopy ov.data 0 ov.size)
+  getV o >>= fun ov => ctorFill cfg c a ctorCopyChecked (srcsCopy ov.data 0 ov.size)
 
 /-- move_initialize (hpp:3173-3240); the overload is selected statically by (N, o.N) -/
 def moveInitialize (cfg : Cfg) (c o : Nat) : M α Unit :=
